@@ -397,6 +397,15 @@ class Report:
         return rc
 
 
+def coqchk(rep):
+    """Independent re-check of every compiled file with coqchk (once per thorough run of C01)."""
+    rc, out = run([os.path.join(VERIF, "bin", "coqchk-all")], timeout=3 * 3600)
+    summary = " ".join(out[out.find("CONTEXT SUMMARY"):].split())[:600] if "CONTEXT SUMMARY" in out else out[-600:]
+    rep.coverage["coqchk"] = {"cmd": "bin/coqchk-all  (coqchk -silent -o over every .vo of the development)", "exit": rc, "summary": summary}
+    if rc != 0:
+        rep.add_broken("coqchk does not accept the development or reports axioms", summary)
+
+
 def standard_check(pid, tier, seed, harness_args=None, eval_prop=None, extra=None):
     """The common flow: theorems + harness + evaluator."""
     rep = Report(pid, tier, seed)
@@ -436,6 +445,8 @@ def standard_check(pid, tier, seed, harness_args=None, eval_prop=None, extra=Non
         classify(rep, pid, eval_prop or pid, meta, outdir)
         if extra:
             extra(rep, meta, scratch, gd, hb)
+        if (tier == "thorough" and pid == "C01") or os.environ.get("VERIF_COQCHK") == "1":
+            coqchk(rep)
         return rep.finish()
     finally:
         shutil.rmtree(scratch, ignore_errors=True)
